@@ -182,7 +182,7 @@ def api_fold(setting_prefs, t):
 
 
 def build(run):
-    run.outside += ["the scanning / trimming / merging control flow of merge_number_blocks (DOM code)", "context heuristics (final punctuation, chemistry)",
+    run.outside += ["the trimming / merging control flow of merge_number_blocks and its scan of mn siblings (DOM code)", "context heuristics (final punctuation, chemistry)",
                     "equality of speech/braille for split vs unsplit input (rule interpreter)"]
     crate_g, lemma_g = guard_lemma(run)
     run.kani(crate_g, [lemma_g], timeout=600)
@@ -208,6 +208,8 @@ def build(run):
         "comma-ch": (blk_c + extra, dec_c, [("pref", "Language de-ch"), ("pref", "DecimalSeparator " + dec_c)]),
     }
     pats = extract_patterns(new_fn)
+    crate_s, lemmas_s = scan_lemma(run, settings, pats)
+    run.kani(crate_s, lemmas_s, timeout=600)
     # the acceptance condition
     mcond = re.search(r"if !\((.*?)\)\s*\{\s*return false;", likely.text, re.S)
     if not mcond:
@@ -335,6 +337,76 @@ def _atoms(e):
 
 
 # ======================================================================================================================
+
+# ======================================================================================================================
+# D-C16-d: one step of the sibling scan of merge_number_blocks for an mo / mtext sibling: which tokens end a number candidate
+SCAN_SHIM = r"""
+#[cfg(kani)] use rxmock::Regex;
+#[cfg(not(kani))] use regex::Regex;
+pub struct Patterns { block_separator: &'static Regex, decimal_separator: &'static Regex }
+pub struct CanonicalizeContext { patterns: Patterns }
+#[derive(Clone, Copy)] pub struct Element { t: usize }
+const TEXTS: [&str; 6] = [",", ".", "\u{a0}", "+", "'", "\u{202f}"];
+fn as_text(e: Element) -> &'static str { TEXTS[e.t] }
+/// the body of the `sibling_name=="mo" || sibling_name=="mtext"` arm, verbatim, as one step: -> (scan stopped, has_decimal_separator', not_a_number')
+#[allow(unreachable_code, unused_assignments, unused_mut, clippy::never_loop)]
+fn step(context: &CanonicalizeContext, sibling: Element, do_not_merge_comma: bool, has_dec: bool) -> (bool, bool, bool) {
+    let mut has_decimal_separator = has_dec;
+    let mut not_a_number = false;
+    loop {
+        ARM_BODY
+        return (false, has_decimal_separator, not_a_number);
+    }
+    (true, has_decimal_separator, not_a_number)
+}
+fn check(context: &CanonicalizeContext) {
+    let t = sym::below(6);
+    let (dnm, has_dec) = (sym::bool(), sym::bool());
+    let text = TEXTS[t];
+    let blk = context.patterns.block_separator.is_match(text);
+    let dec = context.patterns.decimal_separator.is_match(text);
+    let (stopped, has_dec2, nan) = step(context, Element { t }, dnm, has_dec);
+    cover!(blk && t != 0 && dnm && !stopped, "block separator other than ',' continues the candidate although the row holds a list comma");
+    cover!(dec && has_dec && stopped && nan, "second decimal separator reachable");
+    if !(blk || dec) { assert!(stopped && !nan, "a token that is no separator does not end the number candidate"); }
+    else if dec && has_dec { assert!(stopped && nan, "a second decimal separator does not end the candidate as not-a-number"); }
+    else if t == 0 && dnm { assert!(stopped && !nan, "a ',' continues the candidate although the row holds a comma that is not part of a number (issue #271)"); }
+    else {
+        assert!(!stopped, "a block / decimal separator ends the number candidate: the split number is not folded");
+        assert!(has_dec2 == (has_dec || dec), "the scan forgets (or invents) that it has seen the decimal separator");
+    }
+}
+"""
+
+
+def api_scan(vals=None, out=None):
+    res = mcprobe([("pref", "DecimalSeparator ."), ("mathml", "<math><mi>P</mi><mo>(</mo><mi>x</mi><mo>,</mo><mn>12</mn><mspace width='0.167em'/><mn>345</mn><mo>)</mo></math>")])
+    bad = res[-1][0] != "OK" or not re.search(r"<mn[^>]*>12.345</mn>", res[-1][1])
+    return bad, {"script": "set_mathml(P(x, 12 <mspace/> 345)): the number split at a space must be folded into one mn although the row has a list comma", "result": res[-1]}
+
+
+def scan_lemma(run, settings, pats):
+    import kani_run
+    c = slicer.Source.get("src/canonicalize.rs")
+    mnb = c.find("fn clean_mathml", "fn merge_number_blocks")
+    arm = c.find_bracketed('else if sibling_name == "mo" || sibling_name == "mtext" {', within=mnb)[0]
+    body = arm.text[arm.text.index("{"):]
+    run.uses(slicer.Span(c, arm.start, arm.end, "merge_number_blocks::sibling scan::mo/mtext arm"))
+    statics, harnesses, lemmas = [], [], []
+    for sname in ("period", "comma"):
+        b, d, _ = settings[sname]
+        nb, nd = "BLOCK_" + sname.upper(), "DEC_" + sname.upper()
+        statics += [(nb, rust_format(pats["block_separator"][0], pats["block_separator"][1](b, d))), (nd, rust_format(pats["decimal_separator"][0], pats["decimal_separator"][1](b, d)))]
+        harnesses.append('HARNESS(scan_step_%s, 8) {\n    let ctx = CanonicalizeContext { patterns: Patterns { block_separator: &%s, decimal_separator: &%s } };\n    check(&ctx);\n}' % (sname, nb, nd))
+        lemmas.append(dict(id="D-C16-d.scan_step." + sname, harness="scan_step_" + sname, api=lambda v, o: api_scan(), role=lambda v, o: "separator-ends-candidate" if "is not folded" in o else "scan-step-other",
+                           covers=["block separator other than ',' continues the candidate although the row holds a list comma", "second decimal separator reachable"],
+                           claim="the scan stops at a non-separator, at a second decimal separator (not a number) and at ',' when the row has a list comma; every other separator continues the candidate"))
+    crate = kani_run.Crate("c16scan", rxsmt.mock_statics(statics) + SCAN_SHIM.replace("ARM_BODY", body) + "\n".join(harnesses), native_deps={"regex": '"1.10"', "lazy_static": '"1.4"'})
+    run.bound("D-C16-d", "the mo/mtext arm of the sibling scan of merge_number_blocks, one step: sibling text in { , . NBSP + ' U+202F } x do_not_merge_comma x has_decimal_separator, for the 'period' and 'comma' separator settings (patterns built from the extracted format strings, generated DFAs)")
+    run.assume("D-C16-d: the loop around the arm is replaced by a one-pass loop (break = scan stopped); block_separator / decimal_separator are the DFAs generated from the patterns CanonicalizeContextPatterns::new builds for the setting")
+    return crate, lemmas
+
+
 # D-C16-c: the fence guard at the end of is_likely_a_number: a comma-grouped candidate stays a list only between two fences
 GUARD_HARNESS = r"""
 fn is_fence(mo: Element) -> bool { let t = as_text(mo); t == "|" || t == "||" }                 // stand-in for the operator dictionary: the bars are the fences of the model's texts
